@@ -572,6 +572,16 @@ def part_cache(ck, thorough, tlc_results):
         raise vf.Infra("cache overwrite generator produced too few sequences (%d)" % len(over))
     ck.note("cache: %d single-key overwrite histories of 4 operations" % len(over))
     seqs += over
+    gen2 = tlc_results["cache_gen2"]
+    if gen2.error or gen2.violated:
+        raise vf.Infra("TLC DnsCache look-alike generation: %s %s" % (gen2.error, gen2.violated))
+    ck.states += gen2.distinct
+    ck.transitions += gen2.generated
+    alike = tlc_json_prints(gen2)
+    if len(alike) < 500:
+        raise vf.Infra("cache look-alike generator produced too few sequences (%d)" % len(alike))
+    ck.note("cache: %d histories of 3 operations over look-alike names (one non-letter octet apart)" % len(alike))
+    seqs += alike
     walks = tlc_json_prints(sim)
     seqs.sort(key=lambda s: json.dumps(s, sort_keys=True))
     walks.sort(key=lambda s: json.dumps(s, sort_keys=True))
@@ -719,8 +729,12 @@ def run(ck):
     # longer TTL, then read on either side of both deadlines
     m, c = cache_mc(ck, "cache_gen1", 4, mq[:2] if thorough else mq[:1], view=False, emit="EmitGet")
     jobs["cache_gen1"] = dict(module_path=m, cfg_path=c, workers=4, lib_dirs=[SPECDIR], timeout=900)
+    # look-alike names: "served only for the same question" - names 3..6 differ from each other in ONE octet that is not a letter
+    # ('@' / '`', '[' / '{': 0x20 apart, like the two cases of a letter); every sequence of 3 operations over three of them
+    m, c = cache_mc(ck, "cache_gen2", 3, [[3, 1, 1, 1], [4, 1, 1, 1], [3, 2, 1, 1], [5, 1, 1, 1], [6, 1, 1, 1]], view=False, emit="EmitGet")
+    jobs["cache_gen2"] = dict(module_path=m, cfg_path=c, workers=4, lib_dirs=[SPECDIR], timeout=900)
     depth = 10 if thorough else 8
-    m, c = cache_mc(ck, "cache_sim", depth, QUESTIONS, view=False, emit="Emit", advances=(1, 2, 3))
+    m, c = cache_mc(ck, "cache_sim", depth, QUESTIONS + [[3, 1, 1, 1], [4, 1, 1, 1]], view=False, emit="Emit", advances=(1, 2, 3))
     jobs["cache_sim"] = dict(module_path=m, cfg_path=c, workers=2, lib_dirs=[SPECDIR], timeout=900,
                              simulate="num=%d" % (12000 if thorough else 1500), depth=depth + 1, seed=ck.seed)
 
